@@ -40,6 +40,7 @@ import (
 	"unsafe"
 
 	clock "github.com/jonboulle/clockwork"
+	bolt "go.etcd.io/bbolt"
 	"google.golang.org/grpc"
 
 	"github.com/drand/drand/v2/common"
@@ -392,10 +393,116 @@ type vpsRun struct {
 	j        int          // persistence steps observed so far
 	sel      map[int]bool // crash points to realise
 	snapTime map[int]time.Time
+	// bolt commits observed at their real grain (see vpsWatchBolt)
+	ncommit int       // commits since the last step
+	pending string    // copy taken after the last commit, not yet followed by a step or a commit
+	pendingT time.Time
+	mids    []vpsMid  // crash points INSIDE a step: a commit that was followed by another commit
 	served   map[uint64]bool
 	saving   map[string]int // file kind -> epoch being saved (set by the store wrapper)
 	resetN   int
 	failed   string
+}
+
+// vpsMid is a crash point inside a persistence step of the specification: the directories as
+// they were after the c-th bolt commit that followed step j, when a further commit followed
+// before the step was over.
+type vpsMid struct {
+	j, c int
+	dir  string
+	at   time.Time
+}
+
+// vpsWatchBolt makes every committed write transaction of db observable at the moment it
+// becomes the database's state: bbolt writes all pages of a transaction through db.ops.writeAt
+// and commits by writing a meta page (page 0 or 1) last.  The wrapper installed here (the same
+// seam bbolt's own failure-injection tests use) calls onCommit right after a meta page write
+// succeeded, in the committing goroutine, which is parked meanwhile.
+func vpsWatchBolt(db *bolt.DB, onCommit func()) error {
+	if db == nil {
+		return errors.New("nil bolt db")
+	}
+	v := reflect.ValueOf(db).Elem().FieldByName("ops")
+	if !v.IsValid() {
+		return errors.New("bolt.DB has no field ops")
+	}
+	w := v.FieldByName("writeAt")
+	if !w.IsValid() {
+		return errors.New("bolt.DB.ops has no field writeAt")
+	}
+	w = reflect.NewAt(w.Type(), unsafe.Pointer(w.UnsafeAddr())).Elem()
+	orig, ok := w.Interface().(func([]byte, int64) (int, error))
+	if !ok || orig == nil {
+		return errors.New("bolt.DB.ops.writeAt has an unexpected type")
+	}
+	pageSize := int64(db.Info().PageSize)
+	wrapped := func(b []byte, off int64) (int, error) {
+		n, err := orig(b, off)
+		if err == nil && int64(len(b)) == pageSize && (off == 0 || off == pageSize) {
+			onCommit()
+		}
+		return n, err
+	}
+	w.Set(reflect.ValueOf(wrapped))
+	return nil
+}
+
+// vpsBoltOf digs the *bolt.DB out of a store object (field "db" of dkg.BoltStore,
+// boltdb.BoltStore, boltdb.trimmedStore).
+func vpsBoltOf(store any) (*bolt.DB, error) {
+	v := reflect.ValueOf(store)
+	for v.IsValid() && (v.Kind() == reflect.Interface || v.Kind() == reflect.Ptr) {
+		v = v.Elem()
+	}
+	if !v.IsValid() || v.Kind() != reflect.Struct {
+		return nil, fmt.Errorf("store %T is not a struct", store)
+	}
+	f := v.FieldByName("db")
+	if !f.IsValid() {
+		return nil, fmt.Errorf("store %T has no field db", store)
+	}
+	if !f.CanAddr() {
+		return nil, fmt.Errorf("store %T: field db not addressable", store)
+	}
+	f = reflect.NewAt(f.Type(), unsafe.Pointer(f.UnsafeAddr())).Elem()
+	db, ok := f.Interface().(*bolt.DB)
+	if !ok || db == nil {
+		return nil, fmt.Errorf("store %T: field db is not a *bolt.DB", store)
+	}
+	return db, nil
+}
+
+func (r *vpsRun) watch(name string, store any) {
+	db, err := vpsBoltOf(store)
+	if err == nil {
+		err = vpsWatchBolt(db, func() { r.committed(name) })
+	}
+	if err != nil {
+		r.tr.Emit("Note", vlib.E{"what": "cannot watch bolt commits", "db": name, "err": err.Error()})
+		return
+	}
+	r.tr.Emit("Watch", vlib.E{"db": name})
+}
+
+// committed: a write transaction of a database has just been committed (called in the
+// committing goroutine).  A copy of the directories is taken; it becomes a crash point of its
+// own if ANOTHER commit follows before the persistence step is over, i.e. when the code made
+// one step of the specification out of several transactions.
+func (r *vpsRun) committed(db string) {
+	r.mu.Lock()
+	defer r.mu.Unlock()
+	if r.pending != "" {
+		r.mids = append(r.mids, vpsMid{j: r.j, c: r.ncommit, dir: r.pending, at: r.pendingT})
+		r.pending = ""
+	}
+	r.ncommit++
+	r.tr.Emit("Commit", vlib.E{"db": db, "j": r.j, "c": r.ncommit})
+	dir := filepath.Join(r.snaps, fmt.Sprintf("m%03d-%d", r.j, r.ncommit))
+	if err := vpsCopyTree(r.base, dir); err != nil {
+		r.failed = fmt.Sprintf("commit snapshot %d/%d: %v", r.j, r.ncommit, err)
+		return
+	}
+	r.pending, r.pendingT = dir, r.clk.Now()
 }
 
 func (r *vpsRun) groupFile() string {
@@ -443,6 +550,12 @@ func (r *vpsRun) observe(op, f string, a int, derive func(dir string) error) {
 	defer r.mu.Unlock()
 	r.j++
 	j := r.j
+	// the step is over: the copy taken after its (last) commit is the state at this boundary
+	if r.pending != "" {
+		os.RemoveAll(r.pending)
+		r.pending = ""
+	}
+	r.ncommit = 0
 	if op == "Serve" {
 		r.served[uint64(a)] = true
 	}
@@ -681,6 +794,11 @@ func (r *vpsRun) dkgCompletes(e int) {
 	if first {
 		// StartBeacon -> newBeacon -> createDBStore + NewHandler stored the genesis beacon
 		r.observe("GenesisTx", "-", 0, nil)
+		// from now on every write transaction of the chain db is observed
+		r.bp.state.RLock()
+		st := r.bp.dbStore
+		r.bp.state.RUnlock()
+		r.watch("chain", st)
 	}
 }
 
@@ -787,6 +905,7 @@ func vpsRunScenario(t *testing.T, tr *vpsTrace, sc vpsScenario, workdir string) 
 	if r.dstore, err = vpsDKGStoreOf(r.dd); err != nil {
 		t.Fatalf("vps: %v", err)
 	}
+	r.watch("dkg", r.dstore)
 
 	sched := vlib.NewSched()
 	sched.OnPoint("append.stored", func(args []any) {
@@ -876,6 +995,13 @@ func vpsRunScenario(t *testing.T, tr *vpsTrace, sc vpsScenario, workdir string) 
 	sort.Ints(ks)
 	for _, k := range ks {
 		r.restart(k)
+	}
+	// crash points inside a step (only if the code made a step out of several transactions)
+	r.mu.Lock()
+	mids := append([]vpsMid{}, r.mids...)
+	r.mu.Unlock()
+	for _, m := range mids {
+		r.restartAt(m.j, m.c, m.dir, m.at)
 	}
 	for _, k := range sc.Points {
 		if _, ok := r.snapTime[k]; !ok {
@@ -1026,7 +1152,12 @@ func vpsTrim(s string) string {
 }
 
 func (r *vpsRun) restart(k int) {
-	dir := filepath.Join(r.snaps, fmt.Sprintf("k%03d", k))
+	r.restartAt(k, 0, filepath.Join(r.snaps, fmt.Sprintf("k%03d", k)), r.snapTime[k])
+}
+
+// restartAt: Crash after step k (c = 0) or after the c-th bolt commit inside the step that
+// follows step k (c > 0), then Restart on the copy dir.
+func (r *vpsRun) restartAt(k, c int, dir string, at time.Time) {
 	// what a restart finds on disk: read by fresh objects from a scratch copy
 	scratch := dir + "-read"
 	if err := vpsCopyTree(dir, scratch); err != nil {
@@ -1036,7 +1167,7 @@ func (r *vpsRun) restart(k int) {
 	os.RemoveAll(scratch)
 
 	rec := vlib.E{"groupEpoch": obs["group"], "shareEpoch": obs["share"], "chainRounds": obs["chain"], "chainVerifies": obs["chainVerifies"]}
-	clk := clock.NewFakeClockAt(r.snapTime[k])
+	clk := clock.NewFakeClockAt(at)
 	client := &vpsClient{fab: r.fab}
 	// (a fresh listen address: a previous restart that could not be stopped may still hold the node's own)
 	dd, err := vpsNewDaemon(dir, clk, client, test.FreeBind("127.0.0.1"))
@@ -1076,6 +1207,7 @@ func (r *vpsRun) restart(k int) {
 	}
 	// the completed epoch as the restarted daemon's DKG service reports it
 	finE, finWhole := 0, true
+	cur := []any{0, "Fresh"}
 	if cr.Returned {
 		var st *pdkg.DKGStatusResponse
 		var serr error
@@ -1085,6 +1217,9 @@ func (r *vpsRun) restart(k int) {
 		if sr.Returned && sr.Panic == "" && serr == nil && st != nil {
 			if st.Complete != nil {
 				finE = int(st.Complete.Epoch)
+			}
+			if st.Current != nil {
+				cur = []any{int(st.Current.Epoch), dkg.Status(st.Current.State).String()}
 			}
 		} else {
 			finE = -2
@@ -1117,7 +1252,7 @@ func (r *vpsRun) restart(k int) {
 			finWhole = finRec[0] == finE && finRec[1] == finRec[0] && finRec[2] == finRec[0]
 		}
 	}
-	rec["finishedEpoch"], rec["finWhole"], rec["outcome"] = finE, finWhole, outcome
+	rec["finishedEpoch"], rec["finWhole"], rec["outcome"], rec["cur"] = finE, finWhole, outcome, cur
 	r.mu.Lock()
 	var served []int
 	for rd := range r.served {
@@ -1125,7 +1260,7 @@ func (r *vpsRun) restart(k int) {
 	}
 	r.mu.Unlock()
 	sort.Ints(served)
-	r.tr.Emit("Restart", vlib.E{"j": k, "obs": obs, "rec": rec, "err": vpsTrim(errs),
+	r.tr.Emit("Restart", vlib.E{"j": k, "c": c, "obs": obs, "rec": rec, "err": vpsTrim(errs),
 		"loaded": []any{loadedG, loadedS, handler}, "stopped": stoppedOK, "finRecord": finRec})
 	if os.Getenv("VERIF_KEEP") == "" {
 		os.RemoveAll(dir)
